@@ -192,24 +192,35 @@ Definition clause2 (s : store) (v : view) (s' : store) : bool :=
 Definition quiet (r : rresult) : bool :=
   match r with RDone 0 false => true | _ => false end.
 
+(** the persisted count equals the number of failing attempts, capped by the limit *)
+Definition count_ok (b' : bindreq) (gk : option Z) : bool :=
+  match gk, b_limit b' with
+  | Some k, Some l => if 0 <=? l then b_attempts b' =? Z.min k l else true
+  | _, _ => true
+  end.
+
 Definition clause3 (s : store) (p : positive) (o : outcome) (s' : store) (r : rresult) (g' : ghost)
   : bool :=
-  if attempt_fails s p o then
-    match find_br (brs s) p, find_br (brs s') p with
-    | Some b, Some b' =>
-        (match g' p with
-         | Some k =>
-             (match b_limit b' with
-              | Some l => if 0 <=? l then b_attempts b' =? Z.min k l else true
-              | None => true
-              end)
-             && (if limit_reached b' k then spec_failed b' else true)
-         | None => true
-         end)
-        && (if spec_failed b then quiet r && br_eqb b b' else true)
-    | _, _ => false
-    end
-  else true.
+  match find_br (brs s) p with
+  | None => true
+  | Some b =>
+      match find_br (brs s') p with
+      | None => false                                   (* the binder never deletes the request *)
+      | Some b' =>
+          count_ok b' (g' p)
+          && (if attempt_fails s p o then
+                (match g' p with
+                 | Some k => if limit_reached b' k then spec_failed b' else true
+                 | None => true
+                 end)
+                && (if spec_failed b then quiet r && br_eqb b b' else true)
+              else
+                match b_phase b with
+                | BSucceeded => br_eqb b b'             (* terminal: nothing is retried *)
+                | _ => br_phase_eqb (b_phase b') BSucceeded
+                end)
+      end
+  end.
 
 (** ** The monitor: the three clauses along a trace of observed steps.
     [s] is the store before the step, [g] the failing attempts counted so far. *)
